@@ -2425,8 +2425,14 @@ class CollocatedIntegratedOptimizationProblem(OptimizationProblem, metaclass=ABC
             except KeyError:
                 pass
             else:
-                results[variable] = np.interp(
-                    self.times(variable), constant_input.times, constant_input.values
+                # Same interpolation method as used when transcribing the problem
+                results[variable] = self.interpolate(
+                    self.times(variable),
+                    constant_input.times,
+                    constant_input.values,
+                    constant_input.values[0],
+                    constant_input.values[-1],
+                    self.interpolation_method(variable),
                 )
 
         return results
